@@ -466,6 +466,65 @@ def run_cache_state(chk, F):
            'every simplex' % ign, key='E2|maybe_initialize_filtration|empty-is-ambiguous')
 
 
+def run_extremes(chk, F):
+    """E8-extremes (two clauses on the values the order is built from).
+    (ignore-infinite) the simplices `initialize_filtration(true)` leaves out are those at *+infinity*: every return of
+    its ignore predicate compares the value with `get_infinity()` (an equality); a classification test that does not
+    look at the sign (`isinf`, `!isfinite`) also drops the simplices at -infinity - faces go missing before their
+    cofaces.
+    (running extremes) a running minimum and a running maximum over one loop (locals that start at +/- infinity or at
+    the limits of the type) are updated independently: an assignment to one never sits in the else branch of the test
+    that updates the other - the first element lowers the minimum and would never be considered for the maximum
+    (extend_filtration: the span of the vertex values scales every extended value)."""
+    fs = [f for f in F.functions if f.get('clsname') == 'Simplex_tree' and f['name'] == 'initialize_filtration' and
+          f.get('inst') in (0, 2) and f.get('body') is not None and len(f.get('params', [])) == 1]
+    if not fs:
+        raise AnalysisBroken('C03: initialize_filtration(bool) not found')
+    f = fs[0]
+    lams = [x for x in ir.walk(f['body']) if x.get('k') == 'LambdaExpr']
+    rets = [y for lam in lams for y in ir.walk(lam.get('body')) if y.get('k') == 'ReturnStmt' and
+            y.get('value') is not None and ir.show(y['value']) not in ('false', 'true')]
+    if not rets:
+        raise AnalysisBroken('C03: the ignore predicate of initialize_filtration(bool) was not found')
+    bad = None
+    for r in rets:
+        t = ir.show(r['value'])
+        calls = {ir.call_name(y) for y in ir.walk(r['value']) if ir.is_call(y)}
+        if calls & {'isinf', 'isfinite', 'isnormal', 'fpclassify'} or 'get_infinity' not in t or \
+                not any(y.get('k') in ('BinaryOperator', 'CXXOperatorCallExpr') and y.get('op') == '==' for y in
+                        ir.walk(r['value'])) or '-' in t.split('get_infinity')[0][-3:]:
+            bad = r
+    chk.ob('E8-extremes', 'initialize_filtration(true) leaves out exactly the simplices at +infinity (%d predicate '
+           'returns)' % len(rets), '%s:%d' % (rel(f['file']), f['line']), bad is None,
+           '' if bad is None else '`%s` does not compare with +infinity: simplices at -infinity are dropped from the '
+           'filtration while their cofaces stay' % ir.show(bad)[:70],
+           key='E8|Simplex_tree::initialize_filtration|ignore-plus-infinity')
+    n = 0
+    for f in F.functions:
+        if f.get('clsname') != 'Simplex_tree' or f.get('inst') not in (0, 2) or f.get('body') is None:
+            continue
+        ext = {x['n'] for x in ir.walk(f['body']) if x.get('k') == 'VarDecl' and x.get('init') is not None and
+               re.search(r'get_infinity\(\)|infinity\(\)|::max\(\)|::lowest\(\)|::min\(\)', ir.show(x['init']))}
+        if len(ext) < 2:
+            continue
+        n += 1
+        coupled = None
+        for x in ir.walk(f['body']):
+            if x.get('k') != 'IfStmt' or x.get('else') is None:
+                continue
+            wa = {ir.show(ir.write_target(y)) for y in ir.walk(x.get('then')) if ir.write_target(y) is not None} & ext
+            wb = {ir.show(ir.write_target(y)) for y in ir.walk(x.get('else')) if ir.write_target(y) is not None} & ext
+            if wa and wb and wa != wb:
+                coupled = (x, wa, wb)
+        chk.ob('E8-extremes', 'Simplex_tree::%s updates its running extremes %s independently' % (
+            f['name'], '/'.join(sorted(ext))), '%s:%d' % (rel(f['file']), f['line']), coupled is None,
+            '' if coupled is None else 'line %s: `%s` is only updated in the else branch of the test that updates `%s`: an '
+            'element that moves the one is never considered for the other (the first element always moves the first)'
+            % (coupled[0].get('l'), '/'.join(sorted(coupled[2])), '/'.join(sorted(coupled[1]))),
+            key='E8|Simplex_tree::%s|extremes-independent' % f['name'])
+    chk.expect_count('E8-extremes', 'functions keeping two running extremes', n, 1)
+
+
 def run_lifetimes(chk, F):
     """unify_lifetimes (min) and intersect_lifetimes (max) for arithmetic values: on the three relations of (f1, f2)
     the helper overwrites f1 and returns true exactly when f1 changes (NaN excluded, as the property states).
@@ -544,6 +603,7 @@ def run(tier, replay=None):
     run_cache_readers(chk, F)
     run_prune_rules(chk, F)
     run_cone_label(chk, F)
+    run_extremes(chk, F)
     chk.assumptions += ['filtration values obey trichotomy (no NaN), as the property states', 'clang 14 parser',
                         'tables/c03.json lists the mutators the library documents as self-invalidating']
     return chk
